@@ -90,7 +90,7 @@ struct RunResult {
 }
 
 /// one execution of the workload on `m`; `choose(step, enabled, last)` picks an index into `enabled`
-fn run_once(m: &CMap2<f64>, wl: &[Vec<Tx>], budget: usize, choose: &mut dyn FnMut(usize, &[usize], Option<usize>) -> usize) -> RunResult {
+fn run_once(m: &CMap2<f64>, wl: &[Vec<Tx>], budget: usize, on_spin: &dyn Fn(&[(usize, u8)]), choose: &mut dyn FnMut(usize, &[usize], Option<usize>) -> usize) -> RunResult {
     let n = wl.len();
     let s = sched();
     {
@@ -102,6 +102,10 @@ fn run_once(m: &CMap2<f64>, wl: &[Vec<Tx>], budget: usize, choose: &mut dyn FnMu
     let mut labels = Vec::new();
     let mut decisions = Vec::new();
     let mut hang = false;
+    let mut spinning = false;
+    let mut blocked = vec![false; n];
+    let spin_secs = 4;
+    let spun = std::sync::atomic::AtomicBool::new(false);
     std::thread::scope(|sc| {
         for i in 0..n {
             let (outs, commits, txs) = (&outs, &commits, &wl[i]);
@@ -136,8 +140,19 @@ fn run_once(m: &CMap2<f64>, wl: &[Vec<Tx>], budget: usize, choose: &mut dyn FnMu
             while !(0..n).all(|i| st.finished[i] || st.parked[i].is_some()) {
                 st = s.cv.wait(st).unwrap();
             }
-            let enabled: Vec<usize> = (0..n).filter(|&i| !st.finished[i]).collect();
+            // a thread parked in retry() is blocked until another thread has committed something
+            let enabled: Vec<usize> = (0..n).filter(|&i| !st.finished[i] && !(st.parked[i] == Some(4) && blocked[i])).collect();
+            if (0..n).all(|i| st.finished[i]) {
+                break;
+            }
             if enabled.is_empty() {
+                // every remaining thread waits in retry() for a change nobody can make any more
+                hang = true;
+                st.abort = true;
+                s.cv.notify_all();
+                while !(0..n).all(|i| st.finished[i]) {
+                    st = s.cv.wait(st).unwrap();
+                }
                 break;
             }
             if labels.len() >= budget {
@@ -153,11 +168,34 @@ fn run_once(m: &CMap2<f64>, wl: &[Vec<Tx>], budget: usize, choose: &mut dyn FnMu
             decisions.push((c, enabled.len()));
             let pick = enabled[c];
             last = Some(pick);
-            labels.push((pick, st.parked[pick].unwrap()));
+            let kind = st.parked[pick].unwrap();
+            labels.push((pick, kind));
+            if kind == 3 {
+                // a commit attempt of `pick`: whoever waits in retry() may see a change
+                for b in blocked.iter_mut() {
+                    *b = false;
+                }
+            }
+            if kind == 4 {
+                blocked[pick] = true;
+            }
             st.granted = Some(pick);
             s.cv.notify_all();
+            let t0 = std::time::Instant::now();
             while st.granted.is_some() || !(st.finished[pick] || st.parked[pick].is_some()) {
-                st = s.cv.wait(st).unwrap();
+                let (g, _) = s.cv.wait_timeout(st, std::time::Duration::from_millis(200)).unwrap();
+                st = g;
+                if t0.elapsed() > std::time::Duration::from_secs(spin_secs) {
+                    // the thread runs without reaching a yield point or finishing: it spins on its own log
+                    spinning = true;
+                    break;
+                }
+            }
+            if spinning {
+                spun.store(true, std::sync::atomic::Ordering::SeqCst);
+                drop(st);
+                on_spin(&labels);
+                unreachable!();
             }
         }
     });
@@ -242,6 +280,39 @@ fn emit(id: &str, mask: u32, n0: u32, prefix: &[Op], wl: &[Vec<Tx>], pre_dump: &
     let mut op = format!("{id} 1");
     workload_toks(wl, &mut op);
     writeln!(out.ops, "{op}").unwrap();
+    out.cases.flush().unwrap();
+    out.obs.flush().unwrap();
+    out.ops.flush().unwrap();
+}
+
+/// a thread spins without reaching a yield point: the run cannot be joined. Record the case (hang flag 2,
+/// the grants so far, the state before the concurrent phase as final dump) and leave the process.
+fn emit_spin(outdir: &str, id: &str, mask: u32, n0: u32, prefix: &[Op], wl: &[Vec<Tx>], pre_dump: &str, labels: &[(usize, u8)]) -> ! {
+    let app = |f: &str| std::fs::OpenOptions::new().append(true).open(format!("{outdir}/{f}")).unwrap();
+    let mut case = format!("{id} {mask} {n0}");
+    for o in prefix {
+        op_toks(o, &mut case);
+    }
+    workload_toks(wl, &mut case);
+    write!(case, " {}", labels.len()).unwrap();
+    for (t, _) in labels {
+        write!(case, " {t}").unwrap();
+    }
+    writeln!(app("cases.txt"), "{case}").unwrap();
+    let mut line = format!("{id} 0 0 0 0{pre_dump}\n{id} 1 0 0 0 2 {}", wl.len());
+    for _ in wl {
+        line.push_str(" 0");
+    }
+    write!(line, " 0 {}", labels.len()).unwrap();
+    for (t, k) in labels {
+        write!(line, " {t} {k}").unwrap();
+    }
+    line.push_str(pre_dump);
+    writeln!(app("impl.txt"), "{line}").unwrap();
+    let mut op = format!("{id} 1");
+    workload_toks(wl, &mut op);
+    writeln!(app("ops.txt"), "{op}").unwrap();
+    std::process::exit(0)
 }
 
 /// a small call touching few variables (exhaustive mode)
@@ -323,7 +394,8 @@ fn main() {
         let mut pre_dump = String::new();
         dump2(&m0, mask, &mut pre_dump);
         // ---- workload
-        let nth = if threads > 0 { threads } else { 2 + usize::from(r2.chance(1, 4)) };
+        let pb = mode == "pb";
+        let nth = if threads > 0 { threads } else if pb { 2 } else { 2 + usize::from(r2.chance(1, 4)) };
         let fresh0 = if small { 0 } else { m0.n_darts() as u32 - 48 };
         let mut wl: Vec<Vec<Tx>> = Vec::new();
         let mut slot = 0u32;
@@ -349,15 +421,78 @@ fn main() {
             }
             wl.push(th);
         }
+        if pb && r2.chance(1, 2) {
+            // thread 1 takes a dart out of a face some call of thread 0 works on (one block of three links)
+            let target: Option<u32> = wl[0].iter().flatten().find_map(|it| match it {
+                Item::K(KCall::CutOuter(e, _) | KCall::CutInner(e, _) | KCall::Swap(e) | KCall::Collapse(e)) => Some(*e),
+                Item::K(KCall::InsertVertex(e, ..) | KCall::InsertVertices(e, ..)) => Some(*e),
+                Item::C(Call::Sew2(l, _) | Call::Unsew2(l) | Call::Sew1(l, _) | Call::Unsew1(l)) => Some(*l),
+                _ => None,
+            });
+            if let Some(e) = target {
+                if e != 0 && (e as usize) < m0.n_darts() {
+                    let cyc: Vec<u32> = m0.orbit(honeycomb_core::cmap::OrbitPolicy::Face, e).collect();
+                    let d = if r2.chance(1, 2) { e } else { *r2.pick(&cyc) };
+                    let (y, z) = (m0.beta::<0>(d), m0.beta::<1>(d));
+                    if y != 0 && z != 0 && y != d && z != d {
+                        wl[1] = vec![vec![Item::C(Call::Unlink1(d)), Item::C(Call::Unlink1(y)), Item::C(Call::Link1(y, z))]];
+                    }
+                }
+            }
+        }
         // ---- schedules
-        if small {
+        if pb {
+            // preemption-bounded: thread a runs k1 grants, thread b k2 grants, then a to the end, then b
+            let mut count = 0usize;
+            let lens: Vec<usize> = {
+                let m = build_prefix(mask, n0, &prefix);
+                let id = format!("{tag}{i}p{count}");
+                let spin = |l: &[(usize, u8)]| { emit_spin(&outdir, &id, mask, n0, &prefix, &wl, &pre_dump, l) };
+                let r = run_once(&m, &wl, budget, &spin, &mut |_s, _en, _l| 0);
+                emit(&id, mask, n0, &prefix, &wl, &pre_dump, &m, &r, &mut out);
+                count += 1;
+                (0..nth).map(|t| r.labels.iter().filter(|l| l.0 == t).count()).collect()
+            };
+            let per_case = maxsched.max(4);
+            let total: usize = 2 * (lens[0] + 1) * (lens[1] + 1);
+            let stride = total.div_ceil(per_case).max(1);
+            let mut idx = r2.below(stride as u64) as usize;
+            while idx < total {
+                let first = idx % 2;
+                let k1 = (idx / 2) % (lens[first] + 1);
+                let k2 = 1 + (idx / 2) / (lens[first] + 1) % (lens[1 - first] + 1);
+                idx += stride;
+                let m = build_prefix(mask, n0, &prefix);
+                let id = format!("{tag}{i}p{count}");
+                let spin = |l: &[(usize, u8)]| { emit_spin(&outdir, &id, mask, n0, &prefix, &wl, &pre_dump, l) };
+                let mut done = [0usize; 2];
+                let r = run_once(&m, &wl, budget, &spin, &mut |_s, en, _l| {
+                    let want = if done[first] < k1 {
+                        first
+                    } else if done[1 - first] < k2 {
+                        1 - first
+                    } else {
+                        first
+                    };
+                    let t = if en.contains(&want) { want } else { en[0] };
+                    if t < 2 {
+                        done[t] += 1;
+                    }
+                    en.iter().position(|&x| x == t).unwrap()
+                });
+                emit(&id, mask, n0, &prefix, &wl, &pre_dump, &m, &r, &mut out);
+                count += 1;
+            }
+        } else if small {
             let mut forced: Vec<usize> = Vec::new();
             let mut count = 0usize;
             loop {
                 let m = build_prefix(mask, n0, &prefix);
                 let f = forced.clone();
-                let r = run_once(&m, &wl, budget, &mut |step, _en, _last| if step < f.len() { f[step] } else { 0 });
-                emit(&format!("{tag}{i}x{count}"), mask, n0, &prefix, &wl, &pre_dump, &m, &r, &mut out);
+                let id = format!("{tag}{i}x{count}");
+                let spin = |l: &[(usize, u8)]| { emit_spin(&outdir, &id, mask, n0, &prefix, &wl, &pre_dump, l) };
+                let r = run_once(&m, &wl, budget, &spin, &mut |step, _en, _last| if step < f.len() { f[step] } else { 0 });
+                emit(&id, mask, n0, &prefix, &wl, &pre_dump, &m, &r, &mut out);
                 count += 1;
                 if count >= maxsched {
                     break;
@@ -384,7 +519,9 @@ fn main() {
                 let m = build_prefix(mask, n0, &prefix);
                 let mut rs = Rng::new(r2.next());
                 let stick = [50u64, 80, 20, 95][j % 4];
-                let r = run_once(&m, &wl, budget, &mut |_step, en, last| {
+                let id = format!("{tag}{i}r{j}");
+                let spin = |l: &[(usize, u8)]| { emit_spin(&outdir, &id, mask, n0, &prefix, &wl, &pre_dump, l) };
+                let r = run_once(&m, &wl, budget, &spin, &mut |_step, en, last| {
                     if let Some(l) = last {
                         if let Some(p) = en.iter().position(|&x| x == l) {
                             if rs.chance(stick, 100) {
@@ -394,7 +531,7 @@ fn main() {
                     }
                     rs.below(en.len() as u64) as usize
                 });
-                emit(&format!("{tag}{i}r{j}"), mask, n0, &prefix, &wl, &pre_dump, &m, &r, &mut out);
+                emit(&id, mask, n0, &prefix, &wl, &pre_dump, &m, &r, &mut out);
             }
         }
     }
